@@ -93,7 +93,7 @@ Proof.
     assert (f_map vw = [(2, 1)]) as M by (subst; vm_compute; reflexivity).
     assert (f_vox vw = [(0, blk [1; 2; 2; 2])]) as X by (subst; vm_compute; reflexivity).
     assert (get_idx vw 10 = None) as G by (subst; vm_compute; reflexivity).
-    unfold op_guard. split; [discriminate|]. split; [exact G|]. split.
+    unfold op_guard. split; [reflexivity|]. split; [discriminate|]. split; [exact G|]. split.
     + intro s. rewrite M. unfold mapped. simpl. destruct (s =? 2); [discriminate | auto].
     + intro b'. unfold vcount. rewrite X. simpl. destruct (b' =? 0); reflexivity.
   - reflexivity.
